@@ -36,7 +36,6 @@ def canonicity_matters(ref):
 def check_one(case, ctx, deep):
     import concepts
     from concepts import algorithms
-    from concepts._common import Concept, ConceptList
     plain = lib.strip(case)
     ref = Ref.of(case)
     expected = ref.concept_set()
@@ -72,10 +71,8 @@ def check_one(case, ctx, deep):
             for (e, i), (em, im) in zip(out, pairs):
                 ctx.check(int(e) == em and int(i) == im, name + '/raw-vs-members', plain,
                           lambda: f'{name}: raw value {int(e)},{int(i)} != members {em},{im}')
-            if name in ('iterconcepts', 'get_concepts'):
-                ctx.check(all(isinstance(c, Concept) for c in out), name + '/type', plain, 'not Concept tuples')
-            if name == 'get_concepts':
-                ctx.check(isinstance(out, ConceptList), name + '/type', plain, 'not a ConceptList')
+            if name == 'get_concepts':   # "the list wrapper"; the classes of list and items are not part of the statement
+                ctx.check(isinstance(out, list), name + '/type', plain, 'get_concepts() is not a list')
         for name, (it, got) in peeks.items():
             got += ctx.call(name + '/resume', plain, list, it)
             pairs = [(maps.omask(e.members()), maps.pmask(i.members())) for e, i in got]
